@@ -18,7 +18,10 @@ func Strings(before, after string) []Edit {
 		return nil // common case
 	}
 
-	if isASCII(before) && isASCII(after) {
+	if isASCII(before) && isASCII(after) ||
+		!utf8.ValidString(before) || !utf8.ValidString(after) {
+		// The byte-wise path is correct for arbitrary bytes; the rune path
+		// would turn every invalid byte into U+FFFD (3 bytes).
 		// TODO(adonovan): opt: specialize diffASCII for strings.
 		return diffASCII([]byte(before), []byte(after))
 	}
@@ -32,7 +35,9 @@ func Bytes(before, after []byte) []Edit {
 		return nil // common case
 	}
 
-	if isASCIIByte(before) && isASCIIByte(after) {
+	if isASCIIByte(before) && isASCIIByte(after) ||
+		!utf8.Valid(before) || !utf8.Valid(after) {
+		// See Strings: invalid UTF-8 must not go through []rune.
 		return diffASCII(before, after)
 	}
 	return diffRunes(runes(before), runes(after))
